@@ -453,6 +453,34 @@ func (m *modSet) freshRoot(v ssa.Value) bool {
 			return m.allocInScope(x)
 		case *ssa.MakeMap:
 			return m.allocInScope(x)
+		case *ssa.FreeVar:
+			// a captured variable: resolve through the MakeClosure of the enclosing function
+			fn := x.Parent()
+			par := fn.Parent()
+			if par == nil {
+				return false
+			}
+			idx := -1
+			for i, fv := range fn.FreeVars {
+				if fv == x {
+					idx = i
+				}
+			}
+			var bound ssa.Value
+			for _, b := range par.Blocks {
+				for _, in := range b.Instrs {
+					if mc, ok := in.(*ssa.MakeClosure); ok && mc.Fn == fn && idx >= 0 && idx < len(mc.Bindings) {
+						if bound != nil && bound != mc.Bindings[idx] {
+							return false
+						}
+						bound = mc.Bindings[idx]
+					}
+				}
+			}
+			if bound == nil {
+				return false
+			}
+			v = bound
 		default:
 			return false
 		}
@@ -621,7 +649,7 @@ func (ex *Exec) scanInstr(fr *frame, in ssa.Instruction, ms *modSet, depth int, 
 			if val, ok := fr.env[x.Addr]; ok {
 				if _, isRef := val.(*Term); isRef {
 					c, s := ex.cellComp(t)
-					ms.add(c, s)
+					add(c, s)
 					return
 				}
 			}
@@ -631,7 +659,7 @@ func (ex *Exec) scanInstr(fr *frame, in ssa.Instruction, ms *modSet, depth int, 
 			return
 		}
 		c, s := ex.cellComp(t)
-		ms.add(c, s)
+		add(c, s)
 	case *ssa.Alloc:
 		addAlive()
 		fresh = true
